@@ -343,6 +343,35 @@ def native_grid(run):
     return problems
 
 
+def native_small_data(run):
+    """Data sets with fewer than 3 SAMPLES (rows) - however many columns - are refused with ModelFitError before any estimator exists."""
+    import numpy as np
+
+    from replay import shim
+    from replay.native import repo_import
+
+    shim.install()
+    ui = repo_import("formak.ui")
+    exc = repo_import("formak.exceptions")
+    dt, x, v, a = ui.Symbol("dt"), ui.Symbol("x"), ui.Symbol("v"), ui.Symbol("a")
+    model = ui.Model(dt=dt, state={x, v}, control={a}, state_model={x: x + dt * v, v: v + dt * a})
+    grid = {"process_noise": [{a: 1.0}], "sensor_models": [{"pos": {"x": x, "xv": x + v}}], "sensor_noises": [{"pos": {"x": 1.0, "xv": 1.0}}]}
+    problems = []
+    for rows, cols in ((0, 3), (1, 3), (2, 3), (2, 1), (1, 1)):
+        for as_list in (False, True):
+            data = np.arange(rows * cols, dtype=float).reshape((rows, cols)) * 0.1
+            data = data.tolist() if as_list else data
+            st = ui.DesignManager(name="t").symbolic_model(model=model)
+            try:
+                st.fit_model(parameter_space=grid, data=data)
+                problems.append(f"a data set of {rows} sample(s) x {cols} column(s) ({'list' if as_list else 'ndarray'}) was accepted for fitting")
+            except exc.ModelFitError:
+                pass
+            except Exception as e:
+                problems.append(f"a data set of {rows} sample(s) x {cols} column(s) ({'list' if as_list else 'ndarray'}) was not refused with ModelFitError but failed with {type(e).__name__}: {(str(e).splitlines() or [''])[0][:120]}")
+    return problems
+
+
 def native_grid_points(run):
     """D-skl boundary, without running the search: scikit-learn's contract says best_estimator_ = clone(estimator).set_params(**p)
     for a grid point p.  For EVERY point of a grid that tunes two Config fields at once, that estimator's exported filter must carry
@@ -385,6 +414,11 @@ def check(run):
     for ob, model, definitive in driver.refuted(run, rep):
         run.findings.append(Finding(ob.name, "fit", f"{ob.name} refuted ({ob.note or ''})", {"language": "python", "counter_model": str(model)[:400]}, False))
     run.native_runs += 1
+    sd = native_small_data(run)
+    for p in sd[:1]:
+        run.findings.append(Finding("C18.py.native_small_data", "small-data", p, {"language": "python", "inputs": {"seed": run.seed, "small_data": True}, "oracle_verdict": p}, True))
+    run.bounded.append({"what": "data sets of 0, 1 and 2 samples with 1 and 3 columns, as lists and arrays, must be refused with ModelFitError", "bound": "10 data sets", "failures": len(sd), "counted_as_proved": False})
+    run.native_runs += 1
     gp = native_grid_points(run)
     for p in gp[:1]:
         run.findings.append(Finding("C18.py.native_grid_points", "grid", p, {"language": "python", "inputs": {"seed": run.seed, "grid_points": True}, "oracle_verdict": p}, True))
@@ -398,6 +432,10 @@ def check(run):
 
 
 def replay_file(payload):
+    if (payload.get("inputs") or {}).get("small_data"):
+        p = native_small_data(driver.PropertyRun("C18", "quick", 0))
+        print("replay C18 (small data sets):", p[:2] or "every data set with fewer than 3 samples is refused with ModelFitError")
+        return not p
     if (payload.get("inputs") or {}).get("grid_points"):
         run0 = driver.PropertyRun("C18", "quick", 0)
         p = native_grid_points(run0)
